@@ -6,6 +6,7 @@ use roxmltree::Node;
 use crate::error::XlsxError;
 
 use super::{
+    shared_strings::decode_xlsx_escapes,
     util::get_attribute,
     worksheets::{Sheet, WorkbookXML},
 };
@@ -56,7 +57,7 @@ pub(super) fn load_workbook<R: Read + std::io::Seek>(
         .collect();
     for node in name_nodes {
         let name = get_attribute(&node, "name")?.to_string();
-        let formula = node.text().unwrap_or("").to_string();
+        let formula = decode_xlsx_escapes(node.text().unwrap_or(""));
         // NOTE: In Excel the `localSheetId` is just the index of the worksheet and unrelated to the sheetId
         let sheet_id = match node.attribute("localSheetId") {
             Some(s) => {
